@@ -553,7 +553,7 @@ def gen_walk(rng, v, o, maxsteps=4, allow_filter=True, depth=0, first=True):
                     q.append(["all"])
                     v = tgt
                     continue
-                if q[-1][0] not in ("key", "all", "allidx"):
+                if q and q[-1][0] not in ("key", "all", "allidx") and not o.this_filter:
                     q.append(["all"])
                     v = tgt
                     continue
